@@ -826,6 +826,26 @@ let do_eps id ins outs =
     else verdict "eps" id "spec:C08,C09" tag (String.concat "; " (List.rev !problems))
   | _ -> verdict "eps" id "diff" "malformed-line" ""
 
+(* ---- engine daemon, modes svc and act (real binary, service life cycle) ---- *)
+let do_dsvc id ins outs =
+  match ins, outs with
+  | [listen; up; _setopt], [l1; s1; l2; s2] ->
+    let ok = l1 = "1" && l2 = "1" && s1 = up && s2 = up in
+    if ok then verdict "dsvc" id "ok" "svc" ""
+    else if String.length l1 > 10 && String.sub l1 0 10 = "CONFIGFAIL" then verdict "dsvc" id "diff" "config-set-failed" l1
+    else verdict "dsvc" id "spec:C17" "svc"
+        (Printf.sprintf "configuration stored with `config set` (listen %s, forwarder to upstream %s): the service listens there: %s, query reached upstream: %s; after setting one more option and a restart: listens %s, reached %s"
+           (string_of_bytes (bytes_of_token listen)) up l1 s1 l2 s2)
+  | _ -> verdict "dsvc" id "diff" "malformed-line" ""
+let do_dact id ins outs =
+  match ins, outs with
+  | [scenario; _orig], [activated; ondisk; restored] ->
+    if activated <> "1" then verdict "dact" id "diff" scenario "the daemon did not activate within 9 s"
+    else if ondisk = "1" && restored = "1" then verdict "dact" id "ok" scenario ""
+    else verdict "dact" id "spec:C19" scenario
+        (Printf.sprintf "daemon with -auto-activate, scenario %s: original resolv.conf on disk while active: %s, restored byte for byte at the end: %s" scenario ondisk restored)
+  | _ -> verdict "dact" id "diff" "malformed-line" ""
+
 (* ---- engine racestress ----  race <i> stress <secs> => none | <frames> <count>
    no model output to compare: a report by the Go race detector whose stacks touch /repo
    code is a failure of C15 on the implementation itself *)
@@ -1208,6 +1228,8 @@ let () =
       | "sid" :: id :: rest -> let (i, o) = split_arrow rest in do_sid id i o
       | "e2e" :: id :: rest -> let (i, o) = split_arrow rest in do_e2e id i o
       | "lmc" :: id :: rest -> let (i, o) = split_arrow rest in do_lmc id i o
+      | "dsvc" :: id :: rest -> let (i, o) = split_arrow rest in do_dsvc id i o
+      | "dact" :: id :: rest -> let (i, o) = split_arrow rest in do_dact id i o
       | "eps" :: id :: rest -> let (i, o) = split_arrow rest in do_eps id i o
       | "names" :: id :: rest -> let (i, o) = split_arrow rest in do_names id i o
       | "rfr" :: id :: rest -> let (i, o) = split_arrow rest in do_rfr id i o
